@@ -193,6 +193,99 @@ def wrap_statements(ml_body, shards=1):
     return "\n".join(out)
 
 
+def split_sources(ml_body, shards):
+    """the same statements distributed over [shards] source files that are compiled (and run) side by side: ocamlopt needs
+    more than half an hour for one file with 10^5 statements.  Statements that mention the same world slot (t<slot> / w<slot>)
+    stay in one file, in their original order, together with the definitions of that slot; every statement numbers its answer
+    lines from 1000 * its index, the caller merges by that number.  None when a statement ties two slot groups together."""
+    lines = ml_body.split("\n")
+    load = [0] * shards
+    slot_shard = {}
+    stmt_shard = {}
+    k = 0
+    for line in lines:
+        if line.startswith("let () = "):
+            slots = set(re.findall(r"\b[tw](\d+)\b", line))
+            known = sorted(set(slot_shard[x] for x in slots if x in slot_shard))
+            if len(known) > 1:
+                return None
+            sh_ = known[0] if known else min(range(shards), key=lambda i: load[i])
+            for x in slots:
+                slot_shard[x] = sh_
+            load[sh_] += 1
+            stmt_shard[k] = sh_
+            k += 1
+    outs = [[] for _ in range(shards)]
+    calls = [[] for _ in range(shards)]
+    k = 0
+    for line in lines:
+        if line.startswith("let () = "):
+            sh_ = stmt_shard[k]
+            outs[sh_].append("let __q%d () = %s" % (k, line[len("let () = "):]))
+            calls[sh_].append("(Driver.counter := %d; __q%d ())" % (1000 * k, k))
+            k += 1
+        else:
+            m = re.match(r"let [tw](\d+) =", line)
+            if m:
+                outs[slot_shard.get(m.group(1), 0)].append(line)
+            else:
+                for o in outs:
+                    o.append(line)
+    srcs = []
+    for o, cl in zip(outs, calls):
+        for c in range(0, len(cl), 500):
+            o.append("let __run%d () = %s" % (c // 500, "; ".join(cl[c:c + 500])))
+        o.append("let () = " + "; ".join("__run%d ()" % i for i in range((len(cl) + 499) // 500)) if cl else "let () = ()")
+        srcs.append("open Model\nopen Driver\nlet n = Driver.num\n" + "\n".join(o) + "\n")
+    return srcs
+
+
+def run_model_split(ml_body, tag, d, nstat, t_start):
+    srcs = split_sources(ml_body, MODEL_SHARDS)
+    if srcs is None:
+        return None
+    procs = []
+    for i, src in enumerate(srcs):
+        open(os.path.join(d, "cases%d.ml" % i), "w").write(src)
+        procs.append(subprocess.Popen("ulimit -s unlimited 2>/dev/null || ulimit -s 4000000; ocamlfind ocamlopt -w -a -I %s %s/model.cmx %s/driver.cmx cases%d.ml -o cases%d.exe"
+                                      % (OCAML, OCAML, OCAML, i, i), shell=True, cwd=d, stdout=subprocess.PIPE, stderr=subprocess.PIPE, text=True, errors="replace"))
+    for i, p in enumerate(procs):
+        try:
+            o, e = p.communicate(timeout=3000)
+        except subprocess.TimeoutExpired:
+            for q in procs:
+                q.kill()
+            raise BuildError("case file %d does not compile within 50 minutes" % i)
+        if p.returncode != 0:
+            for q in procs:
+                q.kill()
+            raise BuildError("case file does not compile:\n" + (o + e)[-4000:])
+    if os.environ.get("VERIF_TIMING"):
+        sys.stderr.write("[timing] %s: %d statements compiled in %d files in %.1fs\n" % (tag, nstat, len(srcs), time.time() - t_start))
+    procs = [subprocess.Popen("ulimit -s unlimited 2>/dev/null || ulimit -s 4000000; ./cases%d.exe" % i, shell=True, cwd=d,
+                              stdout=subprocess.PIPE, stderr=subprocess.PIPE, text=True, errors="replace") for i in range(len(srcs))]
+    numbered = []
+    for i, p in enumerate(procs):
+        try:
+            o, e = p.communicate(timeout=7200)
+        except subprocess.TimeoutExpired:
+            for q in procs:
+                q.kill()
+            raise BuildError("model run timed out (file %d)" % i)
+        if p.returncode != 0:
+            for q in procs:
+                q.kill()
+            raise BuildError("model run failed: file %d rc=%d\n%s" % (i, p.returncode, (o + e)[-2000:]))
+        for line in o.splitlines():
+            sp = line.split(" ", 1)
+            if len(sp) == 2 and sp[0].isdigit():
+                numbered.append((int(sp[0]), sp[1].strip()))
+    numbered.sort(key=lambda t: t[0])
+    if os.environ.get("VERIF_TIMING"):
+        sys.stderr.write("[timing] %s: model run finished at %.1fs\n" % (tag, time.time() - t_start))
+    return [a for _, a in numbered]
+
+
 def run_model(ml_body, tag="cases"):
     """compile a generated case file against model+driver and run it (on all cores); returns answer lines."""
     build_model()
@@ -201,6 +294,11 @@ def run_model(ml_body, tag="cases"):
     t_start = time.time()
     try:
         nstat = ml_body.count("\nlet () = ")
+        if nstat > 25000:
+            # large case sets: compile and run MODEL_SHARDS files side by side
+            r = run_model_split(ml_body, tag, d, nstat, t_start)
+            if r is not None:
+                return r
         shards = MODEL_SHARDS if nstat > 400 else 1
         src = os.path.join(d, "cases.ml")
         with open(src, "w") as f:
